@@ -563,3 +563,29 @@ Proof.
   - intros m. specialize (E nm (MS m)). rewrite Hlk, Hz in E. simpl in E. lia.
 Qed.
 End StackedHist.
+
+(* ------------------------------------------------------------------ wrapped but NOT stacked locations
+   A location whose [wraps] is set but whose [stacked] flag is false (queue managers wrapping a host) is the one-level
+   chain [l]: _allocate_job's `loc.wraps if loc.stacked else None` and _free_resources's `[loc.wraps for loc in locations
+   if loc.stacked]` both stop at the first level.  Nothing is reserved or released on the wrapped host. *)
+Lemma alloc_first_level_only st job reqs l s' :
+  allocate st job reqs [[l]] = Ok s' -> lookup (req_key l) reqs <> None ->
+  forall nm, nm <> lv_name l -> lookup nm (hwloc s') = lookup nm (hwloc st).
+Proof.
+  intros Hal Hreq nm Hne.
+  destruct (allocate_chain st job reqs l [] s' Hal) as (_ & _ & _ & _ & Hout).
+  - simpl. constructor; [intros []|constructor].
+  - intros l0 [Hl0|[]]. subst. exact Hreq.
+  - apply Hout. simpl. intros [H|[]]. congruence.
+Qed.
+
+Lemma release_first_level_only st job new fls a st' l :
+  lookup job (jobs st) = Some a -> notify st job new fls = Ok st' -> a_locs a = [[(lv_dep l, lv_name l)]] ->
+  forall nm, nm <> lv_name l -> lookup nm (hwloc st') = lookup nm (hwloc st).
+Proof.
+  intros Hl Hno Hlocs nm Hne. destruct (releases (a_status a) new) eqn:Erel.
+  - destruct (notify_release_chain st job new fls a st' [l] Hl Hno Erel Hlocs) as (Hout & _).
+    + simpl. constructor; [intros []|constructor].
+    + apply Hout. simpl. intros [H|[]]. congruence.
+  - destruct (notify_hwloc _ _ _ _ _ _ Hl Hno) as [Hh _]. rewrite (Hh Erel). reflexivity.
+Qed.
